@@ -24,6 +24,10 @@ func JSON(v interface{}, fileIndex func(*requests.Upload) int) string {
 		}
 		return "(JBool false)"
 	case json.Number:
+		// the same text Go prints for the float64 the code under test decodes the number into
+		if f, err := x.Float64(); err == nil {
+			return "(JNum " + hx.CoqString(fmt.Sprint(f)) + ")"
+		}
 		return "(JNum " + hx.CoqString(x.String()) + ")"
 	case float64:
 		return "(JNum " + hx.CoqString(fmt.Sprint(x)) + ")"
